@@ -13,6 +13,7 @@ import (
 func init() {
 	vs.RegisterHarness("VerifC06Median", VerifC06Median)
 	vs.RegisterHarness("VerifC06Powers", VerifC06Powers)
+	vs.RegisterHarness("VerifC06IgnoresNonAvailable", VerifC06IgnoresNonAvailable)
 }
 
 // VerifC06Median: MedianValidatorPriceInfos against an order-free reference written from
@@ -150,4 +151,33 @@ func VerifC06Powers() {
 	vs.Assert("unavailable", unav.BigInt().Cmp(ru) == 0)
 	vs.Assert("unsupported", unsup.BigInt().Cmp(rs) == 0)
 	vs.Reach("done", true)
+}
+
+// VerifC06IgnoresNonAvailable: entries that are not AVAILABLE have no influence on the published median:
+// the real function gives the same result on the full vector and on the vector restricted to its AVAILABLE
+// entries (same order). Relational oracle, no reference model needed.
+func VerifC06IgnoresNonAvailable() {
+	n := vs.Param("n")
+	bits := vs.Param("power_bits")
+	var all, onlyAvail []ValidatorPriceInfo
+	for i := 0; i < n; i++ {
+		info := ValidatorPriceInfo{
+			SignalPriceStatus: SignalPriceStatus(vs.Int("status", 0, 3)),
+			Power:             sdkmath.NewIntFromBigInt(vs.BigU("power", bits)),
+			Price:             vs.U64("price"),
+			Timestamp:         vs.I64("timestamp"),
+		}
+		all = append(all, info)
+		if info.SignalPriceStatus == SIGNAL_PRICE_STATUS_AVAILABLE {
+			onlyAvail = append(onlyAvail, info)
+		}
+	}
+	vs.Assume(len(onlyAvail) < n) // at least one non-available entry, otherwise nothing to compare
+	got1, err1 := MedianValidatorPriceInfos(all)
+	got2, err2 := MedianValidatorPriceInfos(onlyAvail)
+	vs.Assert("same-error", (err1 == nil) == (err2 == nil))
+	if err1 == nil && err2 == nil {
+		vs.Assert("non-available-entries-ignored", got1 == got2)
+		vs.Reach("compared", true)
+	}
 }
